@@ -358,6 +358,8 @@ class CUnit:
                     continue
                 if any(bool(r(e)) for r in regions):
                     continue
+                if getattr(self, "native_guard", None) is not None and not self.native_guard(dict(zip(names, c))):
+                    continue
             except Exception:
                 continue
             cases.append(c)
@@ -525,6 +527,11 @@ class CUnit:
         e.types = {nm: TInfo(ty) for nm, ty in self._ptypes if ty.kind == "int"}
         pre_ok = all(bool(f(e)) for _, f in self.requires)
         kind = ob.kind if ob is not None else "post"
+        guard = getattr(self, "native_guard", None)
+        if guard is not None and not guard(vals):
+            # e.g. a loop subject whose model would iterate 2**60 times natively
+            return {"inputs": vals, "precondition_holds": pre_ok, "confirmed": False, "obligation": ob.name if ob else None,
+                    "note": "the solver's model is outside the native replay budget of this unit (not run)"}
         out = self.run_native(vals, sanitize=(kind in ("ub", "unwind")))
         rep = {"inputs": vals, "precondition_holds": pre_ok, "native": out, "obligation": ob.name if ob else None}
         if "build_error" in out or "timeout" in out:
